@@ -118,7 +118,9 @@ func PubKeyToAddr(addressID int32, pubKey []byte) string {
 // blockHeight is used for enable check, pass -1 if there is no block height context
 func CheckAddress(addr string, blockHeight int64) (e error) {
 
-	if value, ok := checkAddressCache.Get(addr); ok {
+	// which drivers are enabled depends on the height, so the verdict is cached per (address, height)
+	key := checkAddressKey{addr: addr, height: blockHeight}
+	if value, ok := checkAddressCache.Get(key); ok {
 		if value != nil {
 			return value.(error)
 		}
@@ -133,8 +135,13 @@ func CheckAddress(addr string, blockHeight int64) (e error) {
 			break
 		}
 	}
-	checkAddressCache.Add(addr, e)
+	checkAddressCache.Add(key, e)
 	return e
+}
+
+type checkAddressKey struct {
+	addr   string
+	height int64
 }
 
 // GetAddressType get address type id
